@@ -258,7 +258,7 @@ func (g *gen) step() {
 	}
 	src := g.pickInput()
 	in := g.node(src).Schema
-	if g.sub[src] && op != "map" && op != "writerfunc" && op != "prefixed" {
+	if g.sub[src] && op != "map" && op != "writerfunc" && op != "prefixed" && op != "cache" && op != "cachepartial" {
 		op = "map"
 	}
 	if len(in.Cols) == 0 {
@@ -313,6 +313,10 @@ func (g *gen) step() {
 		g.add(Node{Op: "prefixed", In: []int{src}, N: g.draw(1, maxp, "prefix")}, g.level[src], g.sub[src], g.est[src])
 	case "writerfunc":
 		g.add(Node{Op: "writerfunc", In: []int{src}}, g.level[src], g.sub[src], g.est[src])
+	case "cache", "cachepartial":
+		// an observer directly upstream tells which shards were computed rather than read from the cache
+		o := g.add(Node{Op: "writerfunc", In: []int{src}}, g.level[src], g.sub[src], g.est[src])
+		g.add(Node{Op: op, In: []int{o}, CachePrefix: fmt.Sprintf("/c%d", len(g.spec.Nodes))}, g.level[src], g.sub[src], g.est[src])
 	case "fold":
 		kt := rapid.SampledFrom([]Col{TInt, TString, TInt64}).Draw(g.t, "foldkey")
 		id := src
